@@ -36,6 +36,7 @@ type Stats struct {
 	Unsat     int
 	Unknown   int
 	Errors    int
+	OneShot   int
 	SolveTime time.Duration
 }
 
@@ -54,6 +55,8 @@ type Solver struct {
 	Stats     Stats
 	Trace     io.Writer
 	dead      bool
+	hasFP     bool
+	OneShotMs int
 	LastErr   string
 }
 
@@ -138,6 +141,7 @@ func (s *Solver) Reset() {
 	}
 	s.gen = int(atomic.AddInt64(&genCounter, 1))
 	s.nextID = 0
+	s.hasFP = false
 	s.perm = s.perm[:0]
 	s.declared = map[string]bool{}
 	if s.cmd != nil {
@@ -167,6 +171,9 @@ func (s *Solver) ref(t *Term) string {
 	}
 	if t.Gen == s.gen && t.ID > 0 {
 		return "t" + strconv.Itoa(t.ID)
+	}
+	if strings.HasPrefix(t.Op, "fp.") || t.Sort.K == KFP {
+		s.hasFP = true
 	}
 	var sb strings.Builder
 	sb.WriteByte('(')
@@ -253,6 +260,11 @@ func (s *Solver) Check(extra *Term) Result {
 		r = s.ref(extra)
 	}
 	t0 := time.Now()
+	if s.hasFP {
+		res, _ := s.oneShot(r, nil)
+		s.account(res, time.Since(t0))
+		return res
+	}
 	s.send("(push 1)")
 	if r != "" {
 		s.send("(assert " + r + ")")
@@ -261,8 +273,50 @@ func (s *Solver) Check(extra *Term) Result {
 	lines := s.readUntilMarker()
 	s.send("(pop 1)")
 	res := s.classify(lines)
+	if res == Unknown && s.LastErr == "" {
+		res, _ = s.oneShot(r, nil)
+	}
 	s.account(res, time.Since(t0))
 	return res
+}
+
+// oneShot runs the current assertions plus extraRef in fresh solver processes (z3's non-incremental strategies decide
+// floating-point queries that its incremental core does not); falls back to z3-new and cvc5 on unknown.
+func (s *Solver) oneShot(extraRef string, names []string) (Result, map[string]uint64) {
+	ms := s.OneShotMs
+	if ms == 0 {
+		ms = 60000
+	}
+	for _, kind := range []string{"z3", "cvc5", "z3-new"} {
+		var sb strings.Builder
+		if kind == "cvc5" {
+			sb.WriteString("(set-logic ALL)\n(set-option :produce-models true)\n")
+		}
+		for _, p := range s.perm {
+			sb.WriteString(p)
+			sb.WriteByte('\n')
+		}
+		if extraRef != "" {
+			sb.WriteString("(assert " + extraRef + ")\n")
+		}
+		sb.WriteString("(check-sat)\n")
+		if len(names) > 0 {
+			sb.WriteString("(get-value (" + strings.Join(names, " ") + "))\n")
+		}
+		res, out := RunScript(kind, sb.String(), ms)
+		s.Stats.OneShot++
+		if res == Unknown {
+			continue
+		}
+		model := map[string]uint64{}
+		if res == Sat && len(names) > 0 {
+			if i := strings.Index(out, "(("); i >= 0 {
+				parseValues(out[i:], model)
+			}
+		}
+		return res, model
+	}
+	return Unknown, nil
 }
 
 func (s *Solver) account(res Result, d time.Duration) {
@@ -289,6 +343,11 @@ func (s *Solver) Model(extra *Term, vars []*Term) (Result, map[string]uint64) {
 		names = append(names, s.ref(v))
 	}
 	t0 := time.Now()
+	if s.hasFP {
+		res, model := s.oneShot(r, names)
+		s.account(res, time.Since(t0))
+		return res, model
+	}
 	s.send("(push 1)")
 	if r != "" {
 		s.send("(assert " + r + ")")
@@ -349,18 +408,25 @@ func RunScript(kind, script string, timeoutMs int) (Result, string) {
 	c.Stdin = strings.NewReader(script)
 	out, _ := c.CombinedOutput()
 	txt := strings.TrimSpace(string(out))
-	if strings.Contains(txt, "(error") {
-		return Unknown, txt
-	}
+	res := Unknown
 	for _, l := range strings.Split(txt, "\n") {
-		switch strings.TrimSpace(l) {
+		l = strings.TrimSpace(l)
+		if strings.HasPrefix(l, "(error") {
+			// an error before the verdict makes the answer untrustworthy; after "unsat" it is the expected
+			// complaint of get-value about a missing model
+			if res == Unsat && strings.Contains(l, "model") {
+				continue
+			}
+			return Unknown, txt
+		}
+		switch l {
 		case "sat":
-			return Sat, txt
+			res = Sat
 		case "unsat":
-			return Unsat, txt
+			res = Unsat
 		}
 	}
-	return Unknown, txt
+	return res, txt
 }
 
 // ---- s-expression value parsing ----
